@@ -148,3 +148,50 @@ func (p *Prog) helperBlocks(fn *ssa.Function) []*ssa.BasicBlock {
 	}
 	return out
 }
+
+// rootValue: v as seen from root: a parameter of a helper in Helpers(root) is replaced by the
+// argument its call sites pass (when they all pass the same value), transitively.  Values that
+// are not helper parameters are returned unchanged.
+func (p *Prog) rootValue(root *ssa.Function, v ssa.Value) ssa.Value {
+	for depth := 0; depth < 6; depth++ {
+		par, ok := v.(*ssa.Parameter)
+		if !ok || par.Parent() == root {
+			return v
+		}
+		f := par.Parent()
+		idx := -1
+		for i, q := range f.Params {
+			if q == par {
+				idx = i
+			}
+		}
+		if idx < 0 {
+			return v
+		}
+		var arg ssa.Value
+		n := 0
+		for _, b := range p.helperBlocks(root) {
+			for _, ins := range b.Instrs {
+				c, ok := ins.(ssa.CallInstruction)
+				if !ok || c.Common().StaticCallee() != f {
+					continue
+				}
+				args := c.Common().Args
+				if idx >= len(args) {
+					return v
+				}
+				n++
+				if arg == nil {
+					arg = args[idx]
+				} else if arg != args[idx] {
+					return v
+				}
+			}
+		}
+		if n == 0 || arg == nil {
+			return v
+		}
+		v = arg
+	}
+	return v
+}
